@@ -40,7 +40,8 @@ CLAIMED = {
              "C20_negative_counts (#VALUE!), C20_number_rendering (z and z.0 are the digits of z, logicals "
              "TRUE/FALSE, blank empty, for LEFT/RIGHT/MID/REPLACE), C20_find_default, C20_substitute_all + "
              "C20_substitute_rest (no occurrence: unchanged; else prefix & new & substitution of the rest, non-empty "
-             "pattern), C20_concatenate, C20_exact, C20_upper/lower_idempotent (where the case mapping is modelled: "
+             "pattern), C20_substitute_nth (instance i >= 1: exactly the i-th non-overlapping occurrence), "
+             "C20_concatenate, C20_exact, C20_upper/lower_idempotent (where the case mapping is modelled: "
              "ASCII, Latin-1, CJK, pictographs) and C20_upper/lower_ascii (total on ASCII). PARTIAL: "
              "C20_find_partial (first match / #VALUE! proved for start >= 1; start < 1 refuted: "
              "Refuted/C20_find_start.v, FIND(\"c\",\"abc\",0)=3, fractional start raises TypeError), "
@@ -48,9 +49,9 @@ CLAIMED = {
              "refuted: Refuted/C20_trim_ends.v). REFUTED witnesses also for RIGHT(s,0.5)=s "
              "(Refuted/C20_right_fraction.v) and TEXT half-even rounding (Refuted/C20_text_rounding.v: "
              "TEXT(2.5,\"0\")=\"2\", TEXT(0.125,\"0.00\")=\"0.12\"). CORRESPONDENCE-ONLY (no theorem): "
-             "SUBSTITUTE with an instance number, CONCAT, and TEXT(x,f) for one-section formats over 0 # , . % "
+             "CONCAT and TEXT(x,f) for one-section formats over 0 # , . % "
              "(Model/TextFormat.v transcribes _tokenize_format/_number_converter/_number_token_converter with "
-             "round-half-even of the exact value). 18 theorems closed under the global context. Every quick run "
+             "round-half-even of the exact value). 19 theorems closed under the global context. Every quick run "
              "compares the extracted model with the real functions called through apply_meta on ~420k calls "
              "(all strings up to length 4 over a 5-symbol alphabet with a space, a 2-byte and a 4-byte character "
              "x all n,k in -1..10; numbers/booleans/blanks/errors in every position; ~45k TEXT calls) and "
